@@ -48,7 +48,10 @@ DriftStore(e, kind) ==
        ~( /\ (p.kind = "invalid") = (o.code = "InvalidArgument")
           /\ (\A i \in DOMAIN o.ls : NoDupNames(o.ls[i]))
           /\ { LsOf(o.ls[i]) : i \in DOMAIN o.ls } = p.out )
-Drift(e) == \E i \in 1..NK : DriftStore(e, Kinds[i])
+(* worlds with really downsampled blocks: the downsampler re-cuts chunks (one aggregate chunk may span
+   several slots), which the slot model of the algorithm level does not describe: no prediction *)
+HasDownsampled(e) == \E i \in DOMAIN e.in.world.blocks : e.in.world.blocks[i].res > 0
+Drift(e) == ~HasDownsampled(e) /\ \E i \in 1..NK : DriftStore(e, Kinds[i])
 
 VARIABLE l
 TraceInit == l = 1
